@@ -28,14 +28,16 @@ Definition rd_case07 (s : list N) : option case07 :=
   end.
 
 (* what a handler may do to the prepared reply before it fails (every fourth case, chosen by the source number): make it a
-   separate response -- Confirmable, with an id of the server's own -- and set an option.  apply_from_error must leave
+   separate response -- Confirmable, with an id of the server's own -- and set options (an ETag; every eighth case also Observe and Max-Age).  apply_from_error must leave
    all of that alone. *)
 Definition tamper (src : N) (rq : request) : request :=
   if src mod 4 =? 3 then
     match response rq with
-    | Some r => mkRequest (message rq)
-                  (Some (set_option (set_mid (set_hdr r (set_type (hdr r) Confirmable)) ((src * 7) mod 65536)) 4 [[src mod 256]]))
-                  (source rq)
+    | Some r =>
+      let r1 := set_option (set_mid (set_hdr r (set_type (hdr r) Confirmable)) ((src * 7) mod 65536)) 4 [[src mod 256]] in
+      (* ... and, every eighth case, a notification: Observe and Max-Age set as well *)
+      let r2 := if src mod 8 =? 7 then set_option (set_option r1 6 [[src mod 256]]) 14 [[60]] else r1 in
+      mkRequest (message rq) (Some r2) (source rq)
     | None => rq
     end
   else rq.
